@@ -60,6 +60,16 @@ Theorem C14_rectangle_in_world_bounds : forall lat0 lon0 r,
   - (PI / 2) <= mnLat /\ mxLat <= PI / 2 /\ - PI <= mnLon /\ mxLon <= PI.
 Proof. exact rfc_in_bounds. Qed.
 
+(* non-vacuity of the main theorem's hypotheses *)
+Example C14_rectangle_hypotheses_hold_somewhere : lat_ok 45 /\ lon_ok 10 /\ 0 <= 1 / 10 <= PI /\ Rabs (rad 45) + 1 / 10 <> PI / 2 /\
+  hav 45 10 45 10 <= sin ((1 / 10) / 2) * sin ((1 / 10) / 2).
+Proof.
+  unfold lat_ok, lon_ok. rewrite hav_refl. repeat split; try lra.
+  - interval.
+  - apply Rlt_not_eq. unfold rad. interval.
+  - nra.
+Qed.
+
 Print Assumptions C14_latitude_band_covers_disc.
 Print Assumptions C14_longitude_band_covers_disc.
 Print Assumptions C14_rectangle_covers_disc.
